@@ -222,11 +222,17 @@ theorem runTxn_updates (new : KeyId) : ∀ (names : List String) (base : Nat) (s
       simp only [Function.comp, rewrap]
       by_cases hp : (p.name == n) = true
       · have hpn : p.name = n := by simpa using hp
-        simp [hp, hpn]
-        by_cases hc : ns.contains n = true <;> simp [hc]
+        simp [hpn]
       · have hpn : ¬ p.name = n := by simpa using hp
         simp [hp, hpn]
     · simp [hn] at h
+
+theorem runTxn_updates' (new : KeyId) (qs : List Profile) (base : Nat) (st st' : St)
+    (h : runTxn none base (qs.map fun p => updateProfileKey p.name new) st = .ok st') :
+    st' = { st with profiles := st.profiles.map (rewrap new (qs.map (·.name))) } := by
+  apply runTxn_updates new (qs.map (·.name)) base st st'
+  rw [List.map_map]
+  exact h
 
 theorem rewrap_all (new : KeyId) (ps : List Profile) :
     ps.map (rewrap new (ps.map (·.name))) = ps.map fun p => { p with wrap := new } := by
@@ -235,7 +241,7 @@ theorem rewrap_all (new : KeyId) (ps : List Profile) :
   have : (ps.map (·.name)).contains p.name = true := by
     simp only [List.contains_iff_mem]
     exact List.mem_map_of_mem hp
-  simp [rewrap, this]
+  simp only [rewrap, this, ↓reduceIte]
 
 /-- the complete effect of a re-key, and when it is reached -/
 theorem rekey_run (f : Option Nat) (h : Handle) (new : KeyId) (st st' : St)
@@ -249,25 +255,18 @@ theorem rekey_run (f : Option Nat) (h : Handle) (new : KeyId) (st st' : St)
       rcases runTxn_fault_cases k (stmts h (.rekey new) st) 0 st with ⟨e, he⟩ | ⟨_, he⟩
       · rw [he] at hr; cases hr
       · rw [← he]; exact hr
-  simp only [stmts] at hnone
+  simp only [stmts, List.cons_append] at hnone
   have h0 : ¬ ((none : Option Nat) = some 0) := by simp
   simp only [runTxn, h0, if_false, loadKeys] at hnone
   by_cases hl : (st.profiles.all fun p => p.wrap == h.cacheKey) = true
   · simp only [hl, if_true] at hnone
     rw [runTxn_append] at hnone
-    have hmap : (st.profiles.map fun p => updateProfileKey p.name new) = (st.profiles.map (·.name)).map fun n => updateProfileKey n new := by
-      simp [List.map_map, Function.comp]
-    rw [hmap] at hnone
-    cases hu : runTxn none (0 + 1) ((st.profiles.map (·.name)).map fun n => updateProfileKey n new) st with
-    | error e => simp [hu] at hnone
-    | ok st1 =>
-      simp only [hu] at hnone
-      have h1 := runTxn_updates new _ _ _ _ hu
-      simp only [runTxn, setConfigKey] at hnone
-      split at hnone
-      · cases hnone
-      · simp at hnone
-        rw [← hnone, h1, rewrap_all]
+    split at hnone
+    · cases hnone
+    · rename_i st1 hu
+      have h1 := runTxn_updates' new _ _ _ _ hu
+      simp [runTxn, setConfigKey] at hnone
+      rw [← hnone, h1, rewrap_all]
   · simp [hl] at hnone
 
 theorem content_rewrap (new : KeyId) (st : St) :
@@ -301,6 +300,137 @@ theorem opens_iff (k : KeyId) (active : String) (st : St) (hc : Consistent st) (
   constructor
   · intro h; exact h.1
   · intro h; exact ⟨h, by rw [hc p hmem, h]⟩
+
+/-- the database after a complete re-key -/
+def rekeyed (new : KeyId) (st : St) : St :=
+  { st with profiles := st.profiles.map (fun p => { p with wrap := new }), storeKey := new }
+
+/-- a re-key under any fault: refused / failed with nothing changed, or complete with the handle's cache swapped -/
+theorem rekey_result (f : Option Nat) (h : Handle) (new : KeyId) (st : St) :
+    (∃ e, runCall f h (.rekey new) st = (st, h, .err e)) ∨ runCall f h (.rekey new) st = (rekeyed new st, ⟨new⟩, .ok) := by
+  unfold runCall
+  cases hr : runTxn f 0 (stmts h (.rekey new) st) st with
+  | error e => exact Or.inl ⟨e, rfl⟩
+  | ok st' =>
+    right
+    have := rekey_run f h new st st' hr
+    simp only [this, handleAfter, success, rekeyed]
+
+theorem has_rekeyed (new : KeyId) (st : St) (n : String) : (rekeyed new st).has n = st.has n := by
+  simp only [rekeyed, St.has, List.any_map]
+  rfl
+
+theorem consistent_rekeyed (new : KeyId) (st : St) : Consistent (rekeyed new st) := by
+  intro p hp
+  simp only [rekeyed, List.mem_map] at hp
+  obtain ⟨q, _, rfl⟩ := hp
+  rfl
+
+theorem content_rekeyed (new : KeyId) (st : St) : content (rekeyed new st) = content st := content_rewrap new st
+
+/-- exactly one of the two keys opens a consistent store whose key is one of them -/
+theorem opens_xor (old new : KeyId) (active : String) (s : St) (hc : Consistent s) (ha : s.has active = true)
+    (hne : new ≠ old) (hk : s.storeKey = old ∨ s.storeKey = new) :
+    (opens old active s = true ↔ ¬ opens new active s = true) := by
+  rw [opens_iff old active s hc ha, opens_iff new active s hc ha]
+  rcases hk with hk | hk <;> rw [hk]
+  · constructor
+    · intro _ h; exact hne h
+    · intro _; rfl
+  · constructor
+    · intro h1 _; exact hne h1.symm
+    · intro h; exact absurd rfl h
+
+/-! ### the handle stays usable: every profile key is wrapped with the key the handle holds -/
+
+/-- `b` keeps the config key of `a`, and every profile of `b` is wrapped with `K` or as some profile of `a` was -/
+def Keeps (K : KeyId) (a b : St) : Prop :=
+  b.storeKey = a.storeKey ∧ ∀ p ∈ b.profiles, p.wrap = K ∨ ∃ q ∈ a.profiles, q.wrap = p.wrap
+
+theorem keeps_refl (K : KeyId) (s : St) : Keeps K s s := ⟨rfl, fun p hp => Or.inr ⟨p, hp, rfl⟩⟩
+
+theorem keeps_trans (K : KeyId) (a b c : St) (h1 : Keeps K a b) (h2 : Keeps K b c) : Keeps K a c := by
+  refine ⟨h2.1.trans h1.1, fun p hp => ?_⟩
+  rcases h2.2 p hp with hK | ⟨q, hq, hw⟩
+  · exact Or.inl hK
+  · rcases h1.2 q hq with hK | ⟨r, hr, hw'⟩
+    · exact Or.inl (hw ▸ hK)
+    · exact Or.inr ⟨r, hr, hw'.trans hw⟩
+
+theorem keeps_mapProfile (K : KeyId) (st : St) (n : String) (f : Profile → Profile) (hf : ∀ p, (f p).wrap = p.wrap) :
+    Keeps K st (st.mapProfile n f) := by
+  refine ⟨rfl, fun p hp => ?_⟩
+  simp only [St.mapProfile, List.mem_map] at hp
+  obtain ⟨q, hq, rfl⟩ := hp
+  refine Or.inr ⟨q, hq, ?_⟩
+  by_cases hn : (q.name == n) = true <;> simp [hn, hf]
+
+theorem keeps_import (K : KeyId) (to : String) : ∀ (recs : List Rec), ∀ s ∈ importStmts to recs, ∀ x y, s.run x = .ok y → Keeps K x y := by
+  intro recs
+  induction recs with
+  | nil => intro s hs; simp [importStmts] at hs
+  | cons r rs ih =>
+    intro s hs x y hrun
+    simp only [importStmts, List.cons_append, List.mem_cons, List.mem_append, List.mem_map] at hs
+    rcases hs with rfl | ⟨t, _, rfl⟩ | hs
+    · simp only [insertItem] at hrun
+      split at hrun
+      · cases hrun
+      · split at hrun
+        · cases hrun
+        · cases hrun; exact keeps_mapProfile K x to _ (fun _ => rfl)
+    · simp only [insertTag] at hrun
+      cases hrun; exact keeps_mapProfile K x to _ (fun _ => rfl)
+    · exact ih s hs x y hrun
+
+/-- any call under any fault, on a handle whose key is the store key of a consistent store: still so afterwards -/
+theorem usable_invariant (f : Option Nat) (h : Handle) (c : Call) (st : St)
+    (hc : Consistent st) (hh : h.cacheKey = st.storeKey) :
+    Consistent (runCall f h c st).1 ∧ (runCall f h c st).2.1.cacheKey = (runCall f h c st).1.storeKey := by
+  cases c with
+  | rekey new =>
+    rcases rekey_result f h new st with ⟨e, he⟩ | he
+    · rw [he]; exact ⟨hc, hh⟩
+    · rw [he]; exact ⟨consistent_rekeyed new st, rfl⟩
+  | _ =>
+    all_goals
+      unfold runCall
+      cases hr : runTxn f 0 (stmts h _ st) st with
+      | error e => exact ⟨hc, hh⟩
+      | ok st' =>
+        have hk : Keeps h.cacheKey st st' := by
+          refine runTxn_preserves (Keeps h.cacheKey) (keeps_refl _) (keeps_trans _) f _ ?_ 0 st st' hr
+          intro s hs x y hrun
+          simp only [stmts, List.mem_cons, List.mem_nil_iff, or_false] at hs
+          first
+            | (subst hs; simp only [insertProfile] at hrun; cases hrun
+               refine ⟨by split <;> rfl, fun p hp => ?_⟩
+               split at hp
+               · exact Or.inr ⟨p, hp, rfl⟩
+               · simp only [List.mem_append, List.mem_singleton] at hp
+                 rcases hp with hp | rfl
+                 · exact Or.inr ⟨p, hp, rfl⟩
+                 · exact Or.inl rfl)
+            | (subst hs; simp only [deleteProfile] at hrun; cases hrun
+               exact ⟨rfl, fun p hp => Or.inr ⟨p, (List.mem_filter.mp hp).1, rfl⟩⟩)
+            | (subst hs; simp only [setDefaultStmt] at hrun; cases hrun
+               exact ⟨rfl, fun p hp => Or.inr ⟨p, hp, rfl⟩⟩)
+            | (rcases hs with rfl | hs
+               · simp only [targetCheck] at hrun
+                 split at hrun
+                 · cases hrun
+                 · split at hrun
+                   · cases hrun
+                   · split at hrun
+                     · cases hrun
+                     · cases hrun; exact keeps_refl _ _
+               · exact keeps_import _ _ _ s hs x y hrun)
+            | (subst hs; cases hrun)
+        refine ⟨fun p hp => ?_, ?_⟩
+        · rcases hk.2 p hp with hK | ⟨q, hq, hw⟩
+          · rw [hK, hh, hk.1]
+          · rw [← hw, hc q hq, hk.1]
+        · simp only [handleAfter]; rw [hh, hk.1]
 
 /-! ### process kill -/
 
